@@ -46,13 +46,17 @@ RespondReasons(rp) ==
     LET cands == Candidates(rp)
         good == {r \in cands : HonestFor(rp, r)}
         anyFrom == {r \in 1..Len(reqs) : reqs[r].sock = rp.sock}
+        \* the request(s) this response was built for, whether or not already answered (duplicates amplify too)
+        builtFor == {r \in anyFrom : r \in rp.nonce_reqs \/ r \in rp.proof_reqs}
+        amplifies == IF builtFor # {} THEN \A r \in builtFor : rp.len > reqs[r].len
+                     ELSE anyFrom # {} /\ \A r \in anyFrom : rp.len > reqs[r].len
     IN  (IF rp.leak THEN {"leak"} ELSE {})
+        \cup (IF amplifies THEN {"amplification"} ELSE {})
         \cup
         (IF rp.greased /\ rp.fails
          THEN (IF cands = {} THEN {"unsolicited"} ELSE {})     \* a fault-injected reply still answers someone; one that
                                                                \* does NOT fail verification is held to the honest standard (Grease.tla Dichotomy)
-         ELSE IF good # {} THEN
-                (IF \A r \in good : rp.len > reqs[r].len THEN {"amplification"} ELSE {})
+         ELSE IF good # {} THEN {}
               ELSE IF anyFrom = {} THEN {"to_wrong_sender"}
               ELSE IF \A r \in anyFrom : reqs[r].cls = "mustnot" THEN {"reply_to_malformed"}
               ELSE IF cands = {} THEN {"duplicate_reply"}
